@@ -400,11 +400,12 @@ func clashWorld(r *Rng, base string) (*ModuleSpec, []string, []proto.GenScript) 
 		if len(p.Imports) == 2 && r.P(0.75) {
 			// one template whose two arguments are the first mention of two packages with the same last
 			// path element: which one gets the plain name is decided by their position in the text
-			parts = append(parts, proto.Part{Tmpl: fmt.Sprintf("\nvar ClashT%d_a @zz\n\nvar ClashT%d_b @aa\n", pi, pi),
+			// (a blank line of its own first: gofumpt joins adjacent single-line var declarations into one block)
+			parts = append(parts, proto.Part{Text: "\n"}, proto.Part{Tmpl: fmt.Sprintf("\n\nvar ClashT%d_a @zz\n\nvar ClashT%d_b @aa\n\n", pi, pi),
 				TArgs: map[string]string{"zz": m.ImportPath(p.Imports[0]) + "." + m.Pkgs[p.Imports[0]].Anchor, "aa": m.ImportPath(p.Imports[1]) + "." + m.Pkgs[p.Imports[1]].Anchor}})
 		} else {
 			for k, j := range p.Imports {
-				parts = append(parts, proto.Part{Text: fmt.Sprintf("\nvar Clash%d_%d ", pi, k)}, proto.Part{Ref: m.ImportPath(j) + "." + m.Pkgs[j].Anchor}, proto.Part{Text: "\n"})
+				parts = append(parts, proto.Part{Text: fmt.Sprintf("\n\nvar Clash%d_%d ", pi, k)}, proto.Part{Ref: m.ImportPath(j) + "." + m.Pkgs[j].Anchor}, proto.Part{Text: "\n\n"})
 			}
 		}
 		g.Rules[key] = proto.Rule{Render: parts}
